@@ -7,6 +7,7 @@ teaching every rule every spelling, each unit is rewritten into a canonical form
       when t is a plain local assigned exactly once in the function, read exactly once, that read is in the head of the
       statement immediately following the assignment (same statement list), E contains no await / yield / walrus, and the
       statement is not a loop head (a `while t:` test is re-evaluated).  Undoes `x = f(); return x`, `ok = a < b; if ok:`.
+  N5  annotations are dropped:   x: T = e  ->  x = e ;  def f(a: T) -> R  ->  def f(a)
   N2  negated two-armed ifs are un-negated:   if not c: A else: B   ->   if c: B else: A   (elif chains untouched)
 
 Line numbers of the surviving nodes are kept, so reports still point at the real source.  Everything downstream (CFG,
@@ -291,7 +292,33 @@ def _inline_aliases(fn, rebound=None):
             break
 
 
+def _unannotate(tree):
+    '''N5: `x: T = e` -> `x = e`; bare `x: T` declarations disappear; parameter / return annotations are dropped'''
+    for parent in ast.walk(tree):
+        for fld in ('body', 'orelse', 'finalbody'):
+            body = getattr(parent, fld, None)
+            if not (isinstance(body, list) and body and isinstance(body[0], ast.stmt)):
+                continue
+            new = []
+            for st in body:
+                if isinstance(st, ast.AnnAssign):
+                    if st.value is None:
+                        continue
+                    st = ast.copy_location(ast.Assign(targets=[st.target], value=st.value), st)
+                new.append(st)
+            if not new:
+                new = [ast.copy_location(ast.Pass(), body[0])]
+            setattr(parent, fld, new)
+        if isinstance(parent, (ast.FunctionDef, ast.AsyncFunctionDef)):
+            parent.returns = None
+            a = parent.args
+            for x in a.posonlyargs + a.args + a.kwonlyargs + [y for y in (a.vararg, a.kwarg) if y is not None]:
+                x.annotation = None
+    return tree
+
+
 def normalize(tree):
+    _unannotate(tree)
     _unnegate(tree)
     _reaug(tree)
     for cls in [c for c in ast.walk(tree) if isinstance(c, ast.ClassDef)]:
